@@ -95,7 +95,12 @@ RULE = (
     "0 < 1-|s| <= 1e-8 (where the end-point limit of the derivative is admitted) under their own clause with relative tolerance 1e-3. "
     "param-spellings = every real-valued parameter (delta, h, alpha, rho; d) given as Python int, np.int64, np.int32, np.float64, np.float32 and 0-d "
     "array (integer values 1,2,3 / 0..3 where admissible, and a non-integer value): result must equal the rule of the equal Python float (1e-12; "
-    "float32: 3e-4) and satisfy the definition / Gram oracle; sizes are passed as int, np.int64 (n%3==0) and np.int32 (n%5==0)."
+    "float32: 3e-4) and satisfy the definition / Gram oracle; sizes are passed as int, np.int64 (n%3==0) and np.int32 (n%5==0). "
+    "user-bases = TrefethenGeneral (d=1,5,9) / TrefethenStripGeneral (rho=1.1 and random) over USER-DEFINED OneDGrid subclasses whose nodes are "
+    "not symmetric about 0 (shifted Gauss-Legendre, Gauss-Radau, one-sided graded, scattered nodes; own weights), over user subclasses of built-in "
+    "rules with non-default parameters and a functools.partial; oracle = independent g, g' applied to THAT base's nodes and weights. "
+    "Copies: in every deciding case two of {copy.copy, copy.deepcopy, pickle, pickle protocol 2} (drawn by the case generator) of the constructed "
+    "rule must be identical to it (type, size, domain, nodes and weights bit for bit) and are handed to the same oracle as the original."
 )
 ASSUMPTIONS = [
     "nominal degrees as in the property statement (Gauss 2n-1; Clenshaw-Curtis/Fejer n-1; Simpson 3; trapezoid/midpoint 1)",
